@@ -292,7 +292,8 @@ def function_probes(run):
     """floating-point assignments made inside functions that an update calls (directly, and through a second function); twins assign integers"""
     T = ('<?xml version="1.0" encoding="utf-8"?><nta><declaration>clock x; hybrid clock h; int i; double d;\nvoid f0() { %s }\nvoid f1() { if (i > 0) f0(); }</declaration><template><name>T</name>'
          '<location id="id0"/><location id="id1"/><init ref="id0"/><transition><source ref="id0"/><target ref="id1"/><label kind="assignment">%s</label></transition></template><system>system T;</system></nta>')
-    cases = [(body, call, restricts) for body, restricts in (('x = 1.5;', True), ('d = 2.5;', True), ('i = fint(d);', True), ('h = 1.5;', False), ('x = 1; i = 2;', False)) for call in ('f0()', 'i = 1, f1()')]
+    cases = [(body, call, restricts) for body, restricts in (('x = 1.5;', True), ('d = 2.5;', True), ('i = fint(d);', True), ('h = 1.5;', False), ('x = 1; i = 2;', False), ('int l[2]; int m; l[0] = 1; x = 1.5;', True), ('int l[2]; int m; for (q : int[0,1]) l[q] = m;', False),
+                                             ('if (i > 0) { double t = 2.5; d = t; }', True), ('while (i > 0) { i--; h = 0.5; }', False)) for call in ('f0()', 'i = 1, f1()')]
     j = vlib.Job()
     for k, c in enumerate(cases):
         j.case('fp%d' % k, fork=True).model('xml', T % c[:2]).dump('errors').dump('supported').end()
